@@ -48,6 +48,24 @@ func CreateChecksum(hrp string, data []byte) []byte {
 	return out
 }
 
+// EncodeSymbolsConst is EncodeSymbols with another final polymod constant (1 = Bech32, 0x2bc830a3 = Bech32m): strings
+// that a BIP-173 decoder must reject although their checksum is "right" for some other convention.
+func EncodeSymbolsConst(hrp string, data []byte, konst uint32) string {
+	values := append(HrpExpand(hrp), data...)
+	values = append(values, 0, 0, 0, 0, 0, 0)
+	pm := Polymod(values) ^ konst
+	var sb strings.Builder
+	sb.WriteString(hrp)
+	sb.WriteByte('1')
+	for _, d := range data {
+		sb.WriteByte(Charset[d])
+	}
+	for i := 0; i < 6; i++ {
+		sb.WriteByte(Charset[byte((pm>>uint(5*(5-i)))&31)])
+	}
+	return sb.String()
+}
+
 // EncodeSymbols is bech32_encode: hrp (lower case) + '1' + charset(data + checksum).
 func EncodeSymbols(hrp string, data []byte) string {
 	comb := append(append([]byte{}, data...), CreateChecksum(hrp, data)...)
